@@ -11,6 +11,9 @@ Readings (where the property text leaves room):
   (OverflowError) is a rejection, not a different value, and is not reported; any other exception is.
 * "unknown modes are rejected": a string other than 'major' / 'minor' / 'none' and a number other than 1 / -1.  The
   numbers 1.0 and True ARE 1 for Python; nothing is demanded for them except that, if accepted, they mean major.
+* "dotted units carry their defined values" (round 6): symbolic_to_numeric_duration of a note value with 0..3 dots and
+  a tuplet of NON-ZERO counts is divs * value * (2 - 1/2^dots) * normal / actual; a count or the dots left out of the dict
+  mean no tuplet / no dots.  Nothing is demanded for a count of 0 (the code reads it as 1; compared with the model only).
 * Tuplet ratios "carry their defined values": duration_multiplier = normal_notes * dur(normal_type) /
   (actual_notes * dur(actual_type)) exactly (a Fraction), for every pair of note types; with both types absent
   normal_notes / actual_notes.
@@ -28,7 +31,9 @@ from core import Eval
 
 PROPERTY = "C12"
 DRIVER = "drv_c12"
-PROPS = ["PartituraModel.Props.C12", "PartituraModel.Props.C12Real", "PartituraModel.Props.C12Ext"]
+PROPS = ["PartituraModel.Props.C12", "PartituraModel.Props.C12Real", "PartituraModel.Props.C12Ext",
+         "PartituraModel.Props.C12Keys", "PartituraModel.Props.C12More", "PartituraModel.Props.C12Lits",
+         "PartituraModel.Props.C12RealBack", "PartituraModel.Props.C12Gram"]
 TRUSTED = [
     "Python str.lower/upper/strip/count, int() on [+-]digits, re for NOTE_NAME_PATT (modelled as a scanner over the "
     "character classes read off the pattern by re's own parser)",
@@ -37,10 +42,17 @@ TRUSTED = [
     "numpy pow / log2 are accurate to 1% in the frequency and 0.01 in log2 (they are to ~1e-15): under that margin "
     "freq_pitch_stable proves the inversion; compared on MIDI -36..179 x seven tunings x every number type",
     "NumPy promotion rules (NEP 50) for the typed-argument cases: observed, not modelled (the model works on values)",
+    "NumPy applies `np.round` / `.astype(int)` / the arithmetic operators of an ndarray element by element (the array "
+    "forms of the tick conversions are modelled as List.map of the scalar formula and compared by the stream conv_arr)",
+    "Python `str.format` on a format string whose fields are all `{}` (modelled by `pyFormat`)",
 ]
 PARTIAL = [
-    "freq_pitch: theorems over the reals (exact inverse; inverse under 1% / 0.01 perturbation); that the binary64 "
-    "library functions stay inside the margin is trusted, not proved",
+    "freq_pitch: theorems over the reals (exact inverse; inverse under 1% / 0.01 perturbation; frequency -> pitch -> "
+    "frequency within a quarter tone); that the binary64 library functions stay inside the margin is trusted, not proved",
+    "key_name_to_fifths_mode: characterised on every string (closed form, exact rejection set), but the property itself "
+    "speaks of the thirty key names only: outside them the theorems say what the code does, not that it is right",
+    "compound intervals (number > 7) are accepted by Interval.validate and have no size (KeyError): mirrored and "
+    "compared (stream iv), stated as an `example`, not demanded by any theorem",
     "number types: the theorems are about VALUES (Int / Rat); that each NumPy type is converted to its value before "
     "the arithmetic is checked by the `ty` cases only",
 ]
@@ -48,7 +60,11 @@ RULE = ("exhaustive finite domains named by the property (steps x alter -3..3 x 
         "note-name grammar up to 3 accidentals, fifths -24..24 x mode spellings of every Python type, units x dots, "
         "interval classes, all 15 x 15 (type | absent) tuplet pairs x counts 0..13, ensure_pitch_spelling_format "
         "argument kinds, keyword defaults) x the number types of every numeric argument (12 types, scalar / 0-d / 1-d) "
-        "plus seeded random ppq/mpq/time triples; distinct = distinct request line; non-trivial = not an error case")
+        "plus seeded random ppq/mpq/time triples; key names: 15 first characters x 10 accidental strings x 8 suffixes "
+        "plus every branch of the closed form (up to five accidentals, both kinds mixed, marks in odd places: "
+        "`key_name_branches`); symbolic durations with the keys of the dict left out (`symbolic_numeric_shapes`); array "
+        "calls of the tick conversions in six dtypes with the keywords given or left to the defaults (`array_calls`); "
+        "distinct = distinct request line; non-trivial = not an error case")
 
 STEPS = "CDEFGAB"
 BASE = {"C": 0, "D": 2, "E": 4, "F": 5, "G": 7, "A": 9, "B": 11}
@@ -187,6 +203,13 @@ def cases(rng, tier):
         for acc in ["", "#", "b", "##", "bb", "#b", "b#", "###", "bbb", "x"]:
             for suf in ["", "m", "M", "maj", "min", "mm", " m", "-"]:
                 yield {"k": "k2f", "name": root + acc + suf}
+    # 5b. (round 6) every branch of the closed form: many accidentals, both kinds mixed, marks in odd places
+    for root in "FCGDAEB":
+        for acc in ["####", "#####", "bbbb", "bbbbb", "#b#", "b##", "#m#", "mb", "m#", " m", "bm b"]:
+            for suf in ["", "m"]:
+                yield {"k": "k2f", "name": root + acc + suf}
+    for nm in ["mC", "bC", "#C", " C", "Cm ", "F ", "Fm", "FF", "Fmaj", "Fmin", "m", "b", "#", "mm", "C\n"]:
+        yield {"k": "k2f", "name": nm}
     # 6. codes
     for m in MODES + BADMODES + MODES_TYPED + BADMODES2:
         yield {"k": "mode", "mode": m}
@@ -214,6 +237,12 @@ def cases(rng, tier):
             for (a, n) in [(None, None), (3, 2), (5, 4), (7, 8), (2, 3), (0, 0), (3, None)]:
                 for dv in (1, 4, 6, 480):
                     yield {"k": "s2num", "type": ty, "dots": d, "actual": a, "normal": n, "divs": dv}
+    # 8b. (round 6) keys of the dict left out: no "type" (KeyError), no "dots" (none)
+    for ty in [None, "quarter", "e", "long", "foo"]:
+        for d in (None, 0, 2):
+            for (a, n) in [(None, None), (3, 2), (0, 5), (3, 0)]:
+                if ty is None or d is None:
+                    yield {"k": "s2num", "type": ty, "dots": d, "actual": a, "normal": n, "divs": 12}
     # 9. intervals
     for qual in ["dd", "d", "m", "M", "P", "A", "AA", "X"]:
         for n in range(0, 16):
@@ -303,13 +332,15 @@ def cases(rng, tier):
         yield {"k": "t2s", "tick": rng.randint(0, 10**7), "mpq": mpq, "ppq": ppq, "arr": rng.random() < 0.3}
     # 10b. "for scalars and arrays alike": the same values in every container / dtype a caller may hold them in give the
     #      same result, the caller's array is left as it was, the result is a new array, and a second call agrees
-    for _ in range(120 if tier == "quick" else 3000):
+    for _ in range(400 if tier == "quick" else 4000):
         ppq = rng.choice([1, 24, 96, 120, 480, 960, rng.randint(1, 2000)])
         mpq = rng.choice([500000, 857142, 250001, 1000000, rng.randint(1000, 3000000)])
         ticks = [rng.randint(0, 10**6) for _ in range(rng.randint(1, 5))]
         yield {"k": "conv_arr", "ticks": ticks, "mpq": mpq, "ppq": ppq,
                "dtype": rng.choice(["float64", "float64", "int64", "int32", "float32", "0d"]),
-               "dir": rng.choice(["t2s", "t2s", "s2t"])}
+               "dir": rng.choice(["t2s", "t2s", "s2t"]),
+               # round 6: which keywords the ARRAY call is given (the others are left to the defaults)
+               "kw": rng.choice(["both", "both", "both", "mpq", "none"])}
     # 11. frequency <-> pitch (oracle only)
     for a4 in (415.0, 440.0, 442.0, 392.0, 432, 466.1637615180899, 444.5):
         for p in range(-36, 180):
@@ -846,15 +877,25 @@ def evaluate(d):
                 ev.oracle.append("Tempo(%r, %r).microseconds_per_quarter = %r, defined value %s" % (bpm, u, e or r, float(exact)))
         key = "mpq"
     elif k == "s2num":
-        sd = {"type": d["type"], "dots": d["dots"]}
+        sd = {}
+        if d["type"] is not None:
+            sd["type"] = d["type"]
+        if d["dots"] is not None:
+            sd["dots"] = d["dots"]
         if d["actual"] is not None:
             sd["actual_notes"] = d["actual"]
         if d["normal"] is not None:
             sd["normal_notes"] = d["normal"]
         r, e = call(M.symbolic_to_numeric_duration, sd, d["divs"])
-        ev.requests.append("s2num %s %d %s %s %d" % (W.s(d["type"]), d["dots"], W.opt(W.i, d["actual"]),
+        ev.requests.append("s2num %s %s %s %s %d" % (W.opt(W.s, d["type"]), W.opt(W.i, d["dots"]), W.opt(W.i, d["actual"]),
                                                     W.opt(W.i, d["normal"]), d["divs"]))
         ev.impl.append("err" if e else ("@approx", float(r), 1e-12))
+        # oracle (round 6): a note value with 0..3 dots and a tuplet ratio of non-zero counts lasts
+        # divs * value * (2 - 1/2^dots) * normal / actual; counts or dots left out are no tuplet / no dots
+        if d["type"] in VAL and (d["dots"] or 0) <= 3 and d["actual"] != 0 and d["normal"] != 0:
+            exp = d["divs"] * VAL[d["type"]] * DM[d["dots"] or 0] * Fraction(d["normal"] or 1, d["actual"] or 1)
+            if e or abs(Fraction(*float(r).as_integer_ratio()) - exp) > Fraction(1, 10**9) * max(1, exp):
+                ev.oracle.append("symbolic_to_numeric_duration(%r, %r) = %r, defined value %s" % (sd, d["divs"], e or r, exp))
         if not e:
             key = "s2num"
     elif k == "iv":
@@ -924,6 +965,13 @@ def evaluate(d):
         else:
             arg = np.array(vals, dtype=d["dtype"])
         keep = copy.deepcopy(arg)
+        kw = d.get("kw", "both")
+        extra = {"both": (mpq, ppq), "mpq": (mpq,), "none": ()}[kw]
+        if kw != "both":
+            # the values were laid out for (mpq, ppq); with a keyword left out the call simply uses its default
+            f0 = f
+            f = lambda x, _m=None, _p=None: f0(x, *extra)  # noqa: E731
+            f.__name__ = f0.__name__
         r1, e1 = call(f, arg, mpq, ppq)
         same = (arg == keep) if isinstance(arg, list) else bool(np.array_equal(arg, keep) and arg.dtype == keep.dtype)
         what = "%s(%s %s, mpq=%d, ppq=%d)" % (f.__name__, d["dtype"], vals, mpq, ppq)
@@ -948,6 +996,18 @@ def evaluate(d):
                 ev.oracle.append("alike: %s = %r, the same values one by one give %r" % (what, first, scal))
         elif (e1 is None) != (None not in scal):
             ev.oracle.append("alike: %s %s, scalars %s" % (what, "raises %r" % e1 if e1 else "works", scal))
+        # round 6: the array call against the array form of the model (Model/ConversionsArr.lean)
+        if d["dtype"] != "float32":
+            toks = " ".join(("%d" % x) for x in extra) + " D" * (2 - len(extra))
+            m_eff, p_eff = (extra + (500000, 480)[len(extra):]) if len(extra) < 2 else extra
+            if d["dir"] == "t2s":
+                ev.requests.append("tick2secA %s %s" % (toks.strip(), W.lst(W.q, vals)))
+                ev.impl.append("err" if e1 else ("@approx", [float(x) for x in first], 1e-12))
+            else:
+                ex = [Fraction(10**6) * p_eff * W.as_fraction(v) / m_eff for v in vals]
+                if all(abs(x - math.floor(x) - Fraction(1, 2)) > Fraction(1, 10**6) for x in ex):
+                    ev.requests.append("sec2tickA %s %s" % (toks.strip(), W.lst(W.q, vals)))
+                    ev.impl.append("err" if e1 else W.f_list(W.f_int, first))
         key = "conv_arr"
     elif k == "tup":
         class _N:  # minimal stand-in for the start/end notes
@@ -1197,7 +1257,32 @@ def distribution(descs, results):
 
     tup = Counter(tup_branch(d) for d in descs if d["k"] == "tupx")
     ep = Counter("%s/%s" % (d["alter"]["t"], d["oct"]["t"]) for d in descs if d["k"] == "epsf")
+    def k2f_branch(nm):
+        if not nm:
+            return "empty (rejected)"
+        if nm[0] not in "FCGDAEB":
+            return "first character not a letter of the list (rejected)"
+        mode = "minor" if "m" in nm else "major"
+        if "b" in nm:
+            side = "flat"
+        elif mode == "minor" and len(nm) == 2 and nm[0] in "FCGD":
+            side = "two-character rule"
+        elif nm == "F":
+            side = "the name F"
+        else:
+            side = "sharp" if "#" in nm else "natural"
+        return "%s / %s%s" % (mode, side, " / both kinds" if "b" in nm and "#" in nm else "")
+
+    k2f = Counter(k2f_branch(d["name"]) for d in descs if d["k"] == "k2f")
+    arr = Counter("%s %s kw=%s" % (d["dir"], d["dtype"], d.get("kw", "both")) for d in descs if d["k"] == "conv_arr")
+    s2n = Counter("type %s / dots %s / tuplet %s" % (
+        "absent" if d["type"] is None else ("known" if d["type"] in VAL else "unknown"),
+        "absent" if d["dots"] is None else ("0..3" if d["dots"] <= 3 else ">3"),
+        "none" if d["actual"] is None and d["normal"] is None else ("zero count" if 0 in (d["actual"], d["normal"]) else
+                                                                   ("one count" if None in (d["actual"], d["normal"]) else "both")))
+        for d in descs if d["k"] == "s2num")
     return {"by_kind": dict(c), "error_observations": errs, "observations_by_request": dict(obs),
+            "key_name_branches": dict(k2f), "array_calls": dict(arr), "symbolic_numeric_shapes": dict(s2n),
             "typed_by_function": dict(ty_f), "typed_by_type_and_form": dict(ty_t), "typed_other_arguments": dict(ty_other),
             "tuplet_branches": dict(tup), "ensure_format_argument_kinds": dict(ep),
             "defaults_left_out": dict(Counter(d["f"] for d in descs if d["k"] == "dflt"))}
@@ -1209,4 +1294,10 @@ LEVEL_TEXT = ("Lean 4 theorems (unbounded over octaves/pitches/ticks/counts/mode
               "by regenerating every module-level table AND every literal inside the function bodies (tuples, bounds, "
               "ladders, regex classes, arithmetic constants, defaults) from /repo on each run, and by an exhaustive "
               "differential run over the finite domains the property names, repeated for every number type of every "
-              "numeric argument.")
+              "numeric argument.  Round 6: key_name_to_fifths_mode is proved equal to a closed form on EVERY string "
+              "(line-of-fifths position - 3 for minor -/+ 7 per flat / sharp; rejected exactly when the first character is "
+              "not one of the seven letters) with all of its constants regenerated by role (translate_c12b.py), the key "
+              "tables, the key estimator's KEYS table and the pitch-class table are proved to agree (tonic = 7 * fifths "
+              "mod 12 for any number of accidentals), the array forms of the tick conversions are in the model (element "
+              "by element, round trip on whole arrays), symbolic_to_numeric_duration is characterised on every dict, "
+              "and frequency -> pitch -> frequency is bounded by a quarter tone over the reals.")
